@@ -76,7 +76,7 @@ def cases(draw, tier="quick"):
     kinds = ["user", "builtin", "user", "callable", "builtin", "sarray", "user", "builtin"]
     kind = kinds[draw(st.integers(0, 2 ** 16)) % len(kinds)]
     if kind in ("user", "callable"):
-        spec = draw(plotgen.plot_specs(thin=True, ndims=3, max_cells=2000 if tier == "quick" else 6000, min_fields=2, max_fields=5,
+        spec = draw(plotgen.plot_specs(thin=True, level_prefix=True, ndims=3, max_cells=2000 if tier == "quick" else 6000, min_fields=2, max_fields=5,
                                        payload_kinds=("random", "coded", "special")))
         nf = len(spec["fields"])
         ncomp = draw(st.sampled_from([1, 1, 2, 3]))
@@ -88,7 +88,7 @@ def cases(draw, tier="quick"):
         post = draw(st.sampled_from([[], ["mag_vort"], ["volFrac", "phi"]]))
         tpos = draw(st.sampled_from(["before", "after"]))
         fields = pre + (["temp"] if tpos == "before" else []) + [f"Y({s})" for s in SPECIES] + (["temp"] if tpos == "after" else []) + post
-        spec = draw(plotgen.plot_specs(thin=True, ndims=3, max_levels=2, max_cells=160, fields=fields, payload_kinds=("coded",), max_nb0=3))
+        spec = draw(plotgen.plot_specs(thin=True, level_prefix=True, ndims=3, max_levels=2, max_cells=160, fields=fields, payload_kinds=("coded",), max_nb0=3))
         spec["mesh"]["bf"] = 2
         spec["payload"] = dict(kind="physical", seed=draw(st.integers(0, 9999)),
                                zero_frac=draw(st.sampled_from([0.0, 0.0, 0.0, 0.15])))
